@@ -289,6 +289,7 @@ def unit_extern(eng, shape):
     def run(eng):
         eng.I = {}
         comp = compiler_obj(eng, output_charset="CHARSET")
+        sym_tables(eng, comp)            # arbitrary prior content of both tables: other files may have defined / exported anything, also these very names
         calls = []
         comp.attrs["declare_external_symbol"] = Builtin("declare_external_symbol(contract)", lambda e, location, n, st: calls.append((location, n, st)))
         toks = []
